@@ -1,5 +1,5 @@
 // Independent structural fingerprint of an SQLite schema (used by C12 and C17): for tables and indices the rows of
-// PRAGMA table_xinfo / index_list / index_xinfo / foreign_key_list; for views and triggers the sqlite_master text,
+// PRAGMA table_xinfo / index_list / index_xinfo / foreign_key_list plus the AUTOINCREMENT / WITHOUT ROWID properties of the DDL; for views and triggers the sqlite_master text,
 // lower-cased, with whitespace collapsed and identifier quoting ([x], "x", `x`) removed.
 #pragma once
 #include <sqlite3.h>
@@ -99,6 +99,11 @@ inline std::map<std::string, std::string> fingerprint(sqlite3* db, const std::st
         {
             for (auto& c : q(db, "PRAGMA " + dbn + ".table_xinfo('" + name + "')")) f += "col " + c[1] + "|" + norm_sql(c[2]) + "|notnull=" + c[3] + "|default=" + norm_sql(c[4]) + "|pk=" + c[5] + "|hidden=" + c[6] + "\n";
             for (auto& k : q(db, "PRAGMA " + dbn + ".foreign_key_list('" + name + "')")) f += "fk " + k[2] + "(" + k[4] + ")<-" + k[3] + " on_update=" + k[5] + " on_delete=" + k[6] + "\n";
+            // properties of the table the pragmas do not report: AUTOINCREMENT (ids are never handed out again) and WITHOUT ROWID
+            {
+                const std::string ddl = " " + norm_sql(o[3]) + " ";
+                f += std::string("autoincrement=") + (ddl.find(" autoincrement") != std::string::npos ? "1" : "0") + " without_rowid=" + (ddl.find("without rowid") != std::string::npos ? "1" : "0") + "\n";
+            }
             std::vector<std::string> idx;
             for (auto& i : q(db, "PRAGMA " + dbn + ".index_list('" + name + "')"))
             {
